@@ -54,6 +54,46 @@ Definition dappend {X : Type} (k : Z) (x : X) (d : list (Z * list X)) : list (Z 
   | None => dset k [x] d
   end.
 
+(* ---- state-threaded list traversals (f is a section variable so that nested recursive
+   calls through them are accepted by the guard checker, as with List.map) -------------- *)
+Section ListM.
+Context {A B S : Type}.
+Variable f : A -> S -> res (B * S).
+(* [f(x) for x in l], left to right *)
+Fixpoint mapM_st (l : list A) (s : S) : res (list B * S) :=
+  match l with
+  | [] => Ok ([], s)
+  | a :: r =>
+      match f a s with
+      | Err x => Err x
+      | Ok (b, s1) =>
+          match mapM_st r s1 with
+          | Err x => Err x
+          | Ok (bs, s2) => Ok (b :: bs, s2)
+          end
+      end
+  end.
+End ListM.
+
+Section ConcatM.
+Context {A B S : Type}.
+Variable f : A -> S -> res (list B * S).
+(* tuple(y for x in l for y in f(x)) *)
+Fixpoint concatM_st (l : list A) (s : S) : res (list B * S) :=
+  match l with
+  | [] => Ok ([], s)
+  | a :: r =>
+      match f a s with
+      | Err x => Err x
+      | Ok (bs, s1) =>
+          match concatM_st r s1 with
+          | Err x => Err x
+          | Ok (bs', s2) => Ok (bs ++ bs', s2)
+          end
+      end
+  end.
+End ConcatM.
+
 Section Model.
 Variable T : Type.                      (* transformations (12-tuples of floats, or empty) *)
 Variable surf : Type.                   (* entries of dic_surf_mcnp *)
@@ -124,19 +164,7 @@ Fixpoint pot_transform_gen (ct : Z -> state -> res (Z * state)) (t : T) (e : tre
       end
   | TCompl _ => Ok (e, s)                 (* complements stay complements at this stage *)
   | TNode op args =>
-      match (fix go (l : list tree) (s : state) : res (list tree * state) :=
-               match l with
-               | [] => Ok ([], s)
-               | a :: r =>
-                   match pot_transform_gen ct t a s with
-                   | Err x => Err x
-                   | Ok (a', s1) =>
-                       match go r s1 with
-                       | Err x => Err x
-                       | Ok (r', s2) => Ok (a' :: r', s2)
-                       end
-                   end
-               end) args s with
+      match mapM_st (pot_transform_gen ct t) args s with
       | Ok (args', s') => Ok (TNode op args', s')
       | Err x => Err x
       end
@@ -237,20 +265,9 @@ Definition fill_one (cf : nat) (ifd ifg : bool) (key : Z) (cl : cell) (element :
       end
   end.
 
-Fixpoint fill_loop (cf : nat) (ifd ifg : bool) (key : Z) (cl : cell) (elements : list Z) (s : state)
+Definition fill_loop (cf : nat) (ifd ifg : bool) (key : Z) (cl : cell) (elements : list Z) (s : state)
   : res (list Z * state) :=
-  match elements with
-  | [] => Ok ([], s)
-  | e :: r =>
-      match fill_one cf ifd ifg key cl e s with
-      | Err x => Err x
-      | Ok (nk, s1) =>
-          match fill_loop cf ifd ifg key cl r s1 with
-          | Err x => Err x
-          | Ok (nks, s2) => Ok (nk :: nks, s2)
-          end
-      end
-  end.
+  mapM_st (fill_one cf ifd ifg key cl) elements s.
 
 (* pot_fill(key, dict_universe, inline_filled, inline_filling); [fuel] bounds the universe
    nesting, [cf] the CellRef nesting inside cell_transform *)
@@ -265,19 +282,7 @@ Fixpoint pot_fill (fuel cf : nat) (du : list (Z * list Z)) (ifd ifg : bool) (key
           match c_fill cl with
           | None => Ok ([key], s)
           | Some u =>
-              match (fix collect (l : list Z) (s : state) : res (list Z * state) :=
-                       match l with
-                       | [] => Ok ([], s)
-                       | e :: r =>
-                           match pot_fill f cf du ifd ifg e s with
-                           | Err x => Err x
-                           | Ok (ks, s1) =>
-                               match collect r s1 with
-                               | Err x => Err x
-                               | Ok (ks', s2) => Ok (ks ++ ks', s2)
-                               end
-                           end
-                       end) (du_get u du) s with
+              match concatM_st (pot_fill f cf du ifd ifg) (du_get u du) s with
               | Err x => Err x
               | Ok (to_process, s1) => fill_loop cf ifd ifg key cl to_process s1
               end
@@ -312,20 +317,9 @@ Definition is_some {A : Type} (o : option A) : bool := match o with Some _ => tr
 Definition fill_keys (cells : list (Z * cell)) : list Z :=
   map fst (filter (fun kc => is_some (c_fill (snd kc)) && (c_univ (snd kc) =? 0)) cells).
 
-Fixpoint fill_each (fuel cf : nat) (du : list (Z * list Z)) (ifd ifg : bool) (keys : list Z)
-         (s : state) : res (list (list Z) * state) :=
-  match keys with
-  | [] => Ok ([], s)
-  | k :: r =>
-      match pot_fill fuel cf du ifd ifg k s with
-      | Err x => Err x
-      | Ok (nks, s1) =>
-          match fill_each fuel cf du ifd ifg r s1 with
-          | Err x => Err x
-          | Ok (rest, s2) => Ok (nks :: rest, s2)
-          end
-      end
-  end.
+Definition fill_each (fuel cf : nat) (du : list (Z * list Z)) (ifd ifg : bool) (keys : list Z)
+           (s : state) : res (list (list Z) * state) :=
+  mapM_st (pot_fill fuel cf du ifd ifg) keys s.
 
 (* dict_universe = by_universe(mcnp_dict); fill_keys = [...]; for key in fill_keys: pot_fill *)
 Definition fill_phase (fuel cf : nat) (ifd ifg : bool) (s : state) : res (list (list Z) * state) :=
